@@ -20,6 +20,7 @@ import (
 	"fmt"
 	"io"
 	"log/slog"
+	"math/bits"
 	"net"
 	"os"
 	"regexp"
@@ -192,8 +193,11 @@ type ccbOut struct {
 	sample     any
 }
 
-func (o *ccbOut) log(op, real string) { o.cs.Ops = append(o.cs.Ops, op); o.cs.Real = append(o.cs.Real, real) }
-func (o *ccbOut) count(k string)      { o.counts = append(o.counts, k) }
+func (o *ccbOut) log(op, real string) {
+	o.cs.Ops = append(o.cs.Ops, op)
+	o.cs.Real = append(o.cs.Real, real)
+}
+func (o *ccbOut) count(k string) { o.counts = append(o.counts, k) }
 func (o *ccbOut) violate(key, what, expected, observed string) {
 	ccbViolations.Add(1)
 	o.violations = append(o.violations, Violation{Property: "C20", Key: key, What: what, Ops: append([]string{}, o.cs.Ops...), Expected: expected, Observed: observed})
@@ -1160,7 +1164,7 @@ func ccbGenDial(c *Ctx, idx int) ccbDialSpec {
 // ---------------------------------------------------------------------------------------
 
 func runCcb(c *Ctx) error {
-	c.Res.Rule = "accept: every arrival order of ≤3 (thorough ≤4) connections over {matching hello, wrong id, empty id, earlier request's id, right id under a wrong command, garbage, immediate close, silent} plus random longer sequences with byte-level varieties, on the real acceptReversed; proxy: every broker reply × replayed hello class on the real proxyRequestOnStream; dial: real ccb.Dial over loopback TCP with scripted brokers — rogue connections around the legitimate one, success/failure/no reply racing the reverse connection, proxied and nested contacts, 1–3 brokers (working, failing, refusing, dead) in staggered and sequential mode; observables: far end of the returned connection, closed state of every other scripted connection, ids of all requests; distinct by op sequence; non-trivial = at least one connection reached the id comparison"
+	c.Res.Rule = "accept: every arrival order of ≤3 (thorough ≤4) connections over {matching hello, wrong id, empty id, earlier request's id, right id under a wrong command, garbage, immediate close, silent} plus random longer sequences with byte-level varieties, on the real acceptReversed; proxy: every broker reply × replayed hello class on the real proxyRequestOnStream; dial: real ccb.Dial over loopback TCP with scripted brokers — rogue connections around the legitimate one, success/failure/no reply racing the reverse connection, proxied and nested contacts, 1–3 brokers (working, failing, refusing, dead) in staggered and sequential mode; 300 consecutive GenerateConnectID values checked for relatedness (Hamming distance); observables: far end of the returned connection, closed state of every other scripted connection, ids of all requests; distinct by op sequence; non-trivial = at least one connection reached the id comparison"
 	// the handshake code logs every step at INFO on the default logger
 	prevLog := slog.Default()
 	slog.SetDefault(slog.New(slog.NewTextHandler(io.Discard, &slog.HandlerOptions{Level: slog.LevelError + 4})))
@@ -1175,6 +1179,39 @@ func runCcb(c *Ctx) error {
 	for i := 0; i < 3; i++ {
 		id, _ := ccb.GenerateConnectID()
 		old = append(old, id)
+	}
+	// "fresh, unguessable": consecutive ids of one process must be unrelated 160-bit values. Two
+	// independent random values differ in about 80 of 160 bits (fewer than 40 with probability
+	// below 1e-10); a counter, a stepped seed or a reused value differs in a handful.
+	{
+		prev := ""
+		minHam, eq := 160, 0
+		for i := 0; i < 300; i++ {
+			id, err := ccb.GenerateConnectID()
+			if err != nil {
+				continue
+			}
+			a, e1 := hex.DecodeString(prev)
+			b, e2 := hex.DecodeString(id)
+			if prev != "" && e1 == nil && e2 == nil && len(a) == len(b) {
+				h := 0
+				for k := range a {
+					h += bits.OnesCount8(a[k] ^ b[k])
+				}
+				if h < minHam {
+					minHam = h
+				}
+				if h == 0 {
+					eq++
+				}
+			}
+			prev = id
+		}
+		c.Count(fmt.Sprintf("connect-id:min-hamming-distance-of-consecutive-ids>=40:%v", minHam >= 40))
+		if minHam < 40 {
+			c.Violate(Violation{Property: "C20", Key: "C20:connect-id-predictable", What: "consecutive connect ids are closely related: whoever saw one request's id can derive the ids of later requests and present them on their reverse-connect listeners",
+				Ops: []string{"# 300 consecutive ccb.GenerateConnectID() values, Hamming distance between neighbours"}, Expected: "about 80 of 160 bits differ (never fewer than 40)", Observed: fmt.Sprintf("minimum %d bits, %d identical neighbours", minHam, eq)})
+		}
 	}
 	only := os.Getenv("VERIF_CCB_LAYER") // debugging aid: run a single layer
 	t0 := time.Now()
@@ -1250,7 +1287,7 @@ func runCcb(c *Ctx) error {
 	}
 	wg.Wait()
 	outs = append(outs, dres...)
-	c.Res.Notes = append(c.Res.Notes, fmt.Sprintf("layers: accept %.1fs, proxy %.1fs, dial %.1fs", tA.Seconds(), tB.Seconds(), (time.Since(t0) - tA - tB).Seconds()))
+	c.Res.Notes = append(c.Res.Notes, fmt.Sprintf("layers: accept %.1fs, proxy %.1fs, dial %.1fs", tA.Seconds(), tB.Seconds(), (time.Since(t0)-tA-tB).Seconds()))
 
 	var cases []Case
 	samples := map[string]bool{}
